@@ -208,7 +208,6 @@ pub fn stabilize<'text, Sc, F, V>(mut parser: F)
         let mut res = (parser)
             (lexer.clone(), ctx.clone());
 
-        #[cfg_attr(not(feature="tracing"), allow(unused_variables))]
         for attempt in 0u32.. {
             let _trace_span = span!(Level::DEBUG, "", attempt).entered();
             match res {
@@ -218,7 +217,21 @@ pub fn stabilize<'text, Sc, F, V>(mut parser: F)
                     return Ok(succ);
                 },
                 Err(fail) if fail.is_recoverable() => {
+                    // Without a recover state there is no recovery point to
+                    // advance to, and retrying would start from the same
+                    // position forever.
+                    if lexer.recover_state().is_none() {
+                        return Err(fail);
+                    }
+                    let start_pos = lexer.cursor_pos();
                     match lexer.advance_to_recover() {
+                        // The previous attempt already started at this
+                        // recovery point: no progress can be made.
+                        Ok(_) if attempt > 0
+                            && lexer.cursor_pos() == start_pos =>
+                        {
+                            return Err(fail);
+                        },
                         Ok(_) => {
                             event!(Level::DEBUG, "error recovery point found \
                                 ({})",
